@@ -238,6 +238,34 @@ def rules(report, index):
                             'time and shared by all calls',
                             where='%s (line %s)' % (m.name, n.lineno))
     report.count('instantiation sites of stateful classes', inst_sites)
+    # what a printer constructor hands to a rule factory lives as long as
+    # the printer: a one-shot iterator is used up by the first print call
+    from .c07 import ONE_SHOT_FACTORIES
+    um = index.need('calmjs.parse.unparsers.es5')
+    nargs = 0
+    for fname, fdef in sorted(um.functions.items()):
+        for n in ast.walk(fdef):
+            if not (isinstance(n, ast.Call) and ast.unparse(
+                    n.func).startswith('rules.')):
+                continue
+            for arg in list(n.args) + [k.value for k in n.keywords]:
+                nargs += 1
+                oneshot = isinstance(arg, ast.GeneratorExp) or (
+                    isinstance(arg, ast.Call) and ast.unparse(
+                        arg.func).split('.')[-1] in ONE_SHOT_FACTORIES)
+                r2.check(not oneshot, 'argument of %s in %s re-iterable: %s'
+                         % (ast.unparse(n.func), fname,
+                            ast.unparse(arg)[:40]),
+                         '%s(... %s ...) in unparsers.es5.%s' % (
+                             ast.unparse(n.func), ast.unparse(arg)[:60],
+                             fname),
+                         'a one-shot iterator is handed to a rule factory '
+                         'when the printer is built; the first print call '
+                         'uses it up, so later calls of the same printer '
+                         'behave differently',
+                         where='unparsers/es5.py:%s' % fname)
+    report.count('arguments of rule factories in printer constructors',
+                 nargs)
     # BaseUnparser.__call__ builds its machinery per invocation
     base = index.need('calmjs.parse.unparsers.base')
     call = need_function(base, '__call__', 'BaseUnparser')
